@@ -41,6 +41,10 @@ func init() {
 }
 
 func (p propC13) Gen(r *simrt.Rand, idx int, tier string) any {
+	if idx%25 == 12 {
+		c := genC13Conc(r)
+		return C13Case{Conc: &c}
+	}
 	if idx%25 == 24 {
 		c := UnknownTxCase{World: genWorldSpec(r), TxID: fmt.Sprintf("%08x-0000-4000-8000-%012x", r.Uint64()&0xffffffff, r.Uint64()&0xffffffffffff)}
 		switch r.Intn(8) {
@@ -91,6 +95,93 @@ func (p propC13) Gen(r *simrt.Rand, idx int, tier string) any {
 type C13Case struct {
 	Seq     *SeqCase       `json:"seq,omitempty"`
 	Unknown *UnknownTxCase `json:"unknown,omitempty"`
+	Conc    *ConcCase      `json:"conc,omitempty"`
+}
+
+// genC13Conc: one client ends a transaction (Commit or Rollback) while another is still using the
+// same handle (reads, a write); what those overlapping calls answer is not judged here. Judged is
+// what comes AFTER both have returned: every further call through the handle (the Tail, issued by
+// the main client at quiescence) fails with ErrTxNotFound (Rollback: nil) and leaves no trace.
+func genC13Conc(r *simrt.Rand) ConcCase {
+	c := ConcCase{Prop: "C13", Final: true}
+	c.World = genConcWorld(r)
+	c.Keys = genKeys(r, 2, 3)
+	hot := c.Keys[0]
+	id := uint64(0)
+	for _, k := range c.Keys {
+		id++
+		c.Init = append(c.Init, Op{K: "set", Key: k, ID: id, Size: 9 + r.Intn(40)})
+	}
+	id++
+	c.Init = append(c.Init, Op{K: "begin", Tx: 1, Level: r.Intn(4)}, Op{K: "set", Tx: 1, Key: hot, ID: id, Size: 9 + r.Intn(40)},
+		Op{K: "begin", Tx: 2, Level: 0}) // tx 2: a ReadUncommitted observer
+	end := []string{"commit", "rollback"}[r.Intn(2)]
+	c.Clients = append(c.Clients, []Op{{K: "yield", N: r.Intn(10)}, {K: end, Tx: 1}})
+	var u []Op
+	for k := 0; k < 2+r.Intn(4); k++ {
+		switch r.Intn(4) {
+		case 0:
+			u = append(u, Op{K: "get", Tx: 1, Key: hot})
+		case 1:
+			u = append(u, Op{K: "keys", Tx: 1})
+		case 2:
+			id++
+			u = append(u, Op{K: "set", Tx: 1, Key: c.Keys[r.Intn(len(c.Keys))], ID: id, Size: 9 + r.Intn(40)})
+		default:
+			u = append(u, Op{K: "yield", N: r.Intn(12)})
+		}
+	}
+	c.Clients = append(c.Clients, u)
+	if r.Intn(2) == 0 {
+		c.Clients = append(c.Clients, []Op{{K: "get", Tx: 1, Key: hot}, {K: "yield", N: r.Intn(10)}, {K: "get", Tx: 1, Key: hot}})
+	}
+	// late calls, at quiescence
+	id++
+	late := id
+	c.Tail = []Op{{K: "get", Tx: 1, Key: hot}, {K: "keys", Tx: 1}, {K: "set", Tx: 1, Key: c.Keys[len(c.Keys)-1], ID: late, Size: 9 + r.Intn(40)},
+		{K: "del", Tx: 1, Key: hot}, {K: "commit", Tx: 1}, {K: "rollback", Tx: 1},
+		{K: "get", Tx: 2, Key: c.Keys[len(c.Keys)-1]}, {K: "get", Tx: 2, Key: hot}, {K: "keys", Tx: 2}, {K: "get", Key: hot}}
+	for i, j := range r.Perm(6) {
+		c.Tail[i], c.Tail[j] = c.Tail[j], c.Tail[i]
+	}
+	c.Sched = genSched(r, 200)
+	c.Sched.MaxSteps = 600_000
+	return c
+}
+
+// checkC13Conc judges the late calls of genC13Conc.
+func checkC13Conc(c ConcCase, cr *concRun) *Violation {
+	last := lastClientRet(cr)
+	lateIDs := map[uint64]bool{}
+	hotDeleted := false
+	for _, o := range c.Tail {
+		if o.Tx == 1 && o.ID != 0 {
+			lateIDs[o.ID] = true
+		}
+	}
+	for _, e := range cr.hist {
+		if e.Client != 0 || e.Call <= last {
+			continue
+		}
+		if e.Op.Tx == 1 {
+			want := "ErrTxNotFound"
+			if e.Op.K == "rollback" {
+				want = ""
+			}
+			if e.Class != want {
+				return &Violation{Class: "error-class", Signature: "C13|late-call-after-concurrent-end|" + e.Op.K,
+					Detail: fmt.Sprintf("a transaction was ended by one client while another was using the same handle; at quiescence %s through that handle returned class %q (%s), want %q", e.Op, e.Class, e.Err, want)}
+			}
+			continue
+		}
+		// observers (ReadUncommitted transaction 2, autocommit): no trace of the late writes
+		if (e.Op.K == "get" || e.Op.K == "getr") && e.Class == "" && lateIDs[e.ValID] {
+			return &Violation{Class: "value", Signature: "C13|late-write-visible-after-concurrent-end",
+				Detail: fmt.Sprintf("%s returned write #%d, which was made through the handle after the transaction had ended", e.Op, e.ValID)}
+		}
+		_ = hotDeleted
+	}
+	return nil
 }
 
 func (p propC13) Decode(b json.RawMessage) (any, error) {
@@ -101,6 +192,14 @@ func (p propC13) Decode(b json.RawMessage) (any, error) {
 
 func (p propC13) Shrink(x any) []any {
 	c := x.(C13Case)
+	if c.Conc != nil {
+		var out []any
+		for _, d := range concShrink(*c.Conc) {
+			d := d
+			out = append(out, C13Case{Conc: &d})
+		}
+		return out
+	}
 	if c.Seq == nil {
 		return nil
 	}
@@ -116,6 +215,19 @@ func (p propC13) Exec(x any, choices []int32) RunOut {
 	c := x.(C13Case)
 	if c.Seq != nil {
 		return seqExec(*c.Seq, choices)
+	}
+	if c.Conc != nil {
+		out, cr := concExec(*c.Conc, choices)
+		if out.Violation != nil || out.Infra != "" || out.Inconclusive != "" {
+			return out
+		}
+		out.NonTrivial = cr.overlaps() > 0
+		out.Probes["late-calls-after-concurrent-end"]++
+		if v := checkC13Conc(*c.Conc, cr); v != nil {
+			v.Detail += "\nhistory (event numbers):\n" + cr.histText(60)
+			out.Violation = v
+		}
+		return out
 	}
 	return unknownTxExec(*c.Unknown, choices)
 }
